@@ -210,7 +210,7 @@ impl Monitor for M {
                 let ts: Vec<TypeInfo> = (0..n)
                     .map(|_| TypeInfo {
                         kind: ctx.rng.pick(&ALL_KINDS).clone(),
-                        coding: StringCoding::UTF8,
+                        coding: crate::gen_msg::gen_coding(&mut ctx.rng),
                         has_variable_info: ctx.rng.chance(1, 3),
                         has_trace_info: false,
                     })
@@ -226,6 +226,7 @@ impl Monitor for M {
                         d[0] = 0xFF;
                         d[1] = 0xFF;
                     }
+                    let d: Box<[u8]> = d.into_boxed_slice();
                     for be in [Endianness::Big, Endianness::Little] {
                         ctx.eval();
                         ctx.mark(v as u32);
@@ -309,7 +310,10 @@ impl Monitor for M {
                 if inp.bytes.len() > 65536 {
                     ctx.obs("cases.input_larger_than_64KiB");
                 }
-                parse_modes(ctx, self, &inp.bytes, inp.wsh, inp.class, &inp.ops);
+                // an allocation of exactly the input's size: a read past the end of the input is a read past
+                // the end of the allocation, which is what the red-zone sanitizers can see
+                let exact: Box<[u8]> = inp.bytes.clone().into_boxed_slice();
+                parse_modes(ctx, self, &exact, inp.wsh, inp.class, &inp.ops);
                 let b = &inp.bytes;
                 ctx.sample(|| J::obj().set("class", inp.class).set("operators", inp.ops.join("+")).set("input_hex", hex_trunc(b, 96)).set("input_len", b.len()));
             }
